@@ -203,6 +203,22 @@ func sec1Families(rng *rand.Rand) []family {
 				cl["off-curve"] = append(cl["off-curve"], append([]byte{2}, be(big.NewInt(x), n)...))
 			}
 		}
+		// curve points with a tiny x: x + p still fits into the field's bytes for P-256 and P-384 too (x < 2^bits - p), so these are
+		// the non-canonical spellings of real points that exist for every curve
+		for x, found := int64(0), 0; x < 400 && found < 6; x++ {
+			r := new(big.Int).Mul(big.NewInt(x), big.NewInt(x))
+			r.Mul(r, big.NewInt(x)).Sub(r, big.NewInt(3*x)).Add(r, B).Mod(r, P)
+			y := new(big.Int).ModSqrt(r, P)
+			if y == nil {
+				continue
+			}
+			found++
+			xp := new(big.Int).Add(big.NewInt(x), P)
+			if xp.BitLen() <= 8*n {
+				cl["valid"] = append(cl["valid"], unc(big.NewInt(x), y), cmp(big.NewInt(x), y))
+				cl["coord-gt-p"] = append(cl["coord-gt-p"], unc(xp, y), cmp(xp, y), unc(xp, new(big.Int).Sub(P, y)))
+			}
+		}
 		// infinity with stray payload
 		cl["bad-flags"] = append(cl["bad-flags"], make([]byte, 1+n), make([]byte, 1+2*n))
 		ord := N
